@@ -108,6 +108,7 @@ class ReservoirCalculate(_ReservoirBase):
             "time_vector_evenly_spaced": ForAll(0, N, lambda i: tv[i] * (N - 1) == ToReal(i) * L),
             "injection_temperature_gain": s.model.wellbores.Tinj.value
             == s.old.model.wellbores.Tinj.value + s.model.wellbores.tempgaininj.value,
+            "water_properties_positive": And(R.cpwater.value > 0.0, R.rhowater.value > 0.0),
         }
 
 
@@ -150,3 +151,52 @@ def default_depth():
         out.append({"name": f"default depth used in metres (reservoir model {rm})", "ok": abs(v - 3000.0) < 1e-9,
                     "detail": f"depth.value after read_parameters = {v} {m.reserv.depth.CurrentUnits}"})
     return out
+
+
+# ---------------------------------------------------------------------------------------------------------------------
+@contract
+class SFCalculate(_ReservoirBase):
+    """single-fracture model (reservoir model 3): 'starts at bottom-hole temperature ... additionally never exceeds
+    bottom-hole temperature and never rises'.  The parent's Calculate is used through its contract (time vector: starts at
+    0, evenly spaced, N = steps x lifetime points)."""
+    key = "geophires_x/SFReservoir.py::SFReservoir.Calculate"
+    property_ids = ("C05",)
+    reservoir_model = 3
+    assumptions = ("C05 single-fracture history: erf and sqrt are uninterpreted functions with the library facts "
+                   "'increasing', erf(x) in (-1,1), erf >= 0 on x >= 0, sqrt(x)^2 = x (A3); clauses are stated under "
+                   "bottom-hole temperature >= injection temperature and positive rock / fluid properties and drawdown "
+                   "parameter (their declared ranges)",)
+
+    def configs(self):
+        return [("segments=1", {"_numseg": 1})]
+
+    def requires(self, s):
+        out = self.walk_requires(s)
+        R = s.self
+        out["positive_properties"] = And(R.drawdp.value > 0.0, R.krock.value > 0.0, R.rhorock.value > 0.0,
+                                         R.cprock.value > 0.0)
+        return out
+
+    def extra_axioms(self, ctx):
+        import z3
+        a, b = z3.Reals("mono_a mono_b")
+        erf = ctx.uf("erf", z3.RealSort(), z3.RealSort())
+        sqrt = ctx.uf("sqrt", z3.RealSort(), z3.RealSort())
+        return [z3.ForAll([a, b], z3.Implies(a <= b, erf(a) <= erf(b)), patterns=[z3.MultiPattern(erf(a), erf(b))]),
+                z3.ForAll([a, b], z3.Implies(z3.And(0 <= a, a <= b), sqrt(a) <= sqrt(b)),
+                          patterns=[z3.MultiPattern(sqrt(a), sqrt(b))]),
+                # the per-application facts of the intrinsics, for every argument (the loop body is summarised for a
+                # generic index, so facts stated for one iteration constant do not reach the other elements)
+                z3.ForAll([a], z3.And(erf(a) > -1, erf(a) < 1, z3.Implies(a >= 0, erf(a) >= 0)), patterns=[erf(a)]),
+                z3.ForAll([a], z3.Implies(a >= 0, z3.And(sqrt(a) >= 0, sqrt(a) * sqrt(a) == a)), patterns=[sqrt(a)])]
+
+    def ensures(self, s, r):
+        R = s.self
+        T = R.Tresoutput.value
+        N = Len(T)
+        hot = R.Trock.value >= s.model.wellbores.Tinj.value
+        return {
+            "history_starts_at_bottom_hole_temperature": T[0] == R.Trock.value,
+            "never_above_bottom_hole_temperature": Implies(hot, ForAll(0, N, lambda i: T[i] <= R.Trock.value)),
+            "never_rises": Implies(hot, ForAll(0, N - 1, lambda i: T[i + 1] <= T[i])),
+        }
